@@ -58,3 +58,7 @@ chk("C17", "model_checking",
     "(a) the real scheduler() with the lattice engine: all (workers 1..3, steps >= workers) x every completion order, then every (stop point, new step count) restart x every completion order: moves completed, cstep, locked, futures consumed exactly once, runner stopped once; (b) [when built] the real aiorunner on a virtual event loop.",
     "Trusted: inline runner in part (a).",
     "exhaustive schedule enumeration on the implementation", "DESIGN.md 4/C17")
+chk("C14", "model_checking",
+    "Stateless exploration by replay of the real REPEX_state with the real PathStorage on real files: every accept/reject outcome and every completion order up to depth n_ens+3 (one worker) / 4-6 (two workers), pick outcomes up to a deviation bound, x delete_old x delete_old_all x keep_traj_fnames; after every step every live path is re-loaded with the real load_path and compared frame by frame; initial paths are hashed; a FIFO reference model bounds when a replaced path's files may disappear.",
+    "Trusted: accepted paths are written by the harness (two trajectory files, reversed frames, optional energies/aux files). Deviation-bounded in the pick outcomes (reported).",
+    "stateless deviation-bounded exploration on the implementation with a file-ownership reference model", "DESIGN.md 4/C14")
